@@ -51,6 +51,7 @@ V_ENSURES(!__CPROVER_return_value || (g_init_calls == V_OLD(g_init_calls) + 1 &&
 V_ENSURES(__CPROVER_return_value || g_init_calls == V_OLD(g_init_calls)) /*@C18.lib_hash_init.no_init_on_failure*/
 V_ENSURES(__CPROVER_return_value || !SPEC_HASH_VALID(hash->type->type) || hash->ctx == NULL) /*@C18.lib_hash_init.known_type_fails_only_without_memory*/
 V_ENSURES(__CPROVER_return_value || SPEC_HASH_VALID(hash->type->type) || zck == NULL || zck->error_state > 0) /*@C18.lib_hash_init.unknown_type_sets_error*/
+V_ENSURES(__CPROVER_return_value || !SPEC_HASH_VALID(hash->type->type) || zck == NULL || zck->error_state == V_OLD(zck->error_state)) /*@C18.lib_hash_init.known_type_is_never_reported_unsupported*/
 ;
 
 bool lib_hash_update(zckCtx *zck, zckHash *hash, const char *message, const size_t size)
